@@ -238,8 +238,16 @@ def main(argv=None):
               level=getattr(mod, "LEVEL", "model_checking"))
     try:
         if a.replay:
-            case = json.loads(Path(a.replay).read_text())
-            return mod.replay(ctx, case)
+            # generic replay: re-run the check and report whether the recorded violation (same site) is reproduced
+            rep = json.loads(Path(a.replay).read_text())
+            if hasattr(mod, "replay"):
+                return mod.replay(ctx, rep)
+            mod.run(ctx)
+            same = [v for v in ctx.violations if v["site"] == rep.get("site")]
+            print("replay of %s: site %s %s (%d violation(s) at this site, %d in total)" %
+                  (a.replay, rep.get("site"), "REPRODUCED" if same else "not reproduced", len(same), len(ctx.violations)))
+            ctx.violations = same
+            return ctx.finish()
         if a.selftest:
             return mod.selftest(ctx)
         mod.run(ctx)
